@@ -74,6 +74,10 @@ def run(ctx):
         path, cnt = ctx.write_cases(name + ".ndjson", cases)
         ctx.samples += core.sample_of(cases, 1)
         ctx.replay(PKG, OVERLAY, "^TestVerifC10$", path, label=name, env=dict(VERIF_SLOTS=n), shards=16, binp=binp)
+        if name in ("g3a", "g4"):
+            # the same behaviours with callbacks that are still running while later ticks fire
+            ctx.replay(PKG, OVERLAY, "^TestVerifC10$", path, label=name + "-slowcb", env=dict(VERIF_SLOTS=n, VERIF_GATED=1),
+                       shards=16, binp=binp)
     for name, n, kw, num, depth in sims:
         cases = gen(ctx, name, n, simulate=num, depth=depth, **kw)
         path, cnt = ctx.write_cases(name + ".ndjson", cases)
